@@ -174,4 +174,78 @@ theorem range_rows_perm (parse : Bytes → Option Rat) (o : Oracles) (c : LogQL.
     have hfp : sa.fp = sb.fp := (sample_labels_iff (ratOps parse) o c d hd q0 sa sb hsa hsb).mp h3
     rw [hfp, h1]
 
+/-! ### the range points as input of the vector stage: on the grid, labelled by a label document -/
+theorem rangePoints_lra_sample (o : Oracles) (c : LogQL.Ctx) (d : LokiDb) (q0 : LogQuery) (fn' : LogQL.RangeFn) (dur : Nat)
+    (p : Pt) (hp : p ∈ rangePoints o c d ⟨.lra fn', q0, dur, none, none, none⟩ c.fromNs c.toNs) :
+    ∃ sx ∈ d.samples.filter (entryMatches o c d q0), p.key = .int sx.fp ∧ p.labels = .null ∧ p.ts = bucketOf dur sx.ts := by
+  have hes : d.samples.filter (entryMatchesW o c d q0 c.fromNs c.toNs) = d.samples.filter (entryMatches o c d q0) := rfl
+  simp only [rangePoints, hes, List.mem_map] at hp
+  obtain ⟨kk, hkk, rfl⟩ := hp
+  rw [List.mem_eraseDups] at hkk
+  obtain ⟨sx, hsx, rfl⟩ := List.mem_map.mp hkk
+  exact ⟨sx, hsx, rfl, rfl, rfl⟩
+
+theorem rangePoints_on_grid (o : Oracles) (c : LogQL.Ctx) (d : LokiDb) (q0 : LogQuery) (fn' : LogQL.RangeFn)
+    (dur k n : Nat) (hdur : 0 < dur) (hfrom : c.fromNs = (k : Int) * dur) (hto : c.toNs = c.fromNs + (n : Int) * dur)
+    (p : Pt) (hp : p ∈ rangePoints o c d ⟨.lra fn', q0, dur, none, none, none⟩ c.fromNs c.toNs) :
+    ∃ i, i < (Grid.of c.fromNs c.toNs dur).n ∧ (Grid.of c.fromNs c.toNs dur).bucket p.ts = some i ∧
+      p.ts = (Grid.of c.fromNs c.toNs dur).start + (i : Int) * (Grid.of c.fromNs c.toNs dur).dur := by
+  obtain ⟨sx, hsx, _, _, hts⟩ := rangePoints_lra_sample o c d q0 fn' dur p hp
+  have hw := (List.mem_filter.mp hsx).2
+  simp only [entryMatches, Bool.and_eq_true, decide_eq_true_eq] at hw
+  have h1 : c.fromNs ≤ sx.ts := hw.1.1.1.1
+  have h2 : sx.ts < c.fromNs + (n : Int) * dur := by rw [← hto]; exact hw.1.1.1.2
+  obtain ⟨i, hi, _, hbo⟩ := grid_bucket c.fromNs dur k n hdur hfrom sx.ts h1 h2
+  have hdpos : (0 : Int) < dur := by exact_mod_cast hdur
+  have hmul : bucketOf dur (c.fromNs + (i : Int) * dur) = c.fromNs + (i : Int) * dur := by
+    rw [hfrom]
+    simp only [bucketOf]
+    have : (k : Int) * dur + (i : Int) * dur = ((k : Int) + i) * dur := by rw [Int.add_mul]
+    rw [this, Int.mul_tdiv_cancel _ (by omega)]
+  have hlt : c.fromNs + (i : Int) * dur < c.fromNs + (n : Int) * dur := by
+    have : (i : Int) * dur < (n : Int) * dur := Int.mul_lt_mul_of_pos_right (by exact_mod_cast hi) hdpos
+    omega
+  have hge : c.fromNs ≤ c.fromNs + (i : Int) * dur := by
+    have : 0 ≤ (i : Int) * dur := Int.mul_nonneg (by omega) (by omega)
+    omega
+  obtain ⟨j, hj, hbj, hboj⟩ := grid_bucket c.fromNs dur k n hdur hfrom _ hge hlt
+  rw [hmul] at hboj
+  have hji : i = j := grid_inj c.fromNs dur hdur i j hboj
+  subst hji
+  rw [hts, hbo, hto]
+  exact ⟨i, by rw [grid_n c.fromNs dur n hdur]; exact hi, hbj, rfl⟩
+
+theorem rangePoints_labels_doc (o : Oracles) (c : LogQL.Ctx) (d : LokiDb) (hd : SeriesStoreOk o c d) (q0 : LogQuery)
+    (fn' : LogQL.RangeFn) (dur : Nat)
+    (p : Pt) (hp : p ∈ rangePoints o c d ⟨.lra fn', q0, dur, none, none, none⟩ c.fromNs c.toNs) :
+    ∃ m, ptLabels o c d q0 p = .map m ∧ NodupKeys m := by
+  obtain ⟨sx, hsx, hkey, hnull, _⟩ := rangePoints_lra_sample o c d q0 fn' dur p hp
+  obtain ⟨m, hm, hnd, _⟩ := sample_row' (ratOps (fun _ => none)) o c d hd q0 sx hsx
+  exact ⟨m, by simp only [ptLabels, hnull, hkey]; exact hm, hnd⟩
+
+theorem aggVal_nil (o : Oracles) (fn : LogQL.AggFn) : aggVal o fn [] = none := by
+  cases fn <;> rfl
+
+/-- the points of the vector stage carry the kept label document -/
+theorem aggStage_labels (o : Oracles) (c : LogQL.Ctx) (d : LokiDb) (q : LogQuery) (a : VecAgg) (pts : List Pt)
+    (hdoc : ∀ p ∈ pts, ∃ m, ptLabels o c d q p = .map m)
+    (pt : Pt) (hpt : pt ∈ aggStage o c d q a pts) : ∃ m, pt.labels = .map m := by
+  simp only [aggStage, List.mem_filterMap] at hpt
+  obtain ⟨kk, _, hsome⟩ := hpt
+  obtain ⟨v', hv, rfl⟩ := Option.map_eq_some_iff.mp hsome
+  generalize hgrp : List.filter (fun it : Val × Val × Int × Rat => _) _ = grp at *
+  cases hh : grp.head? with
+  | none =>
+    rw [List.head?_eq_none_iff] at hh
+    subst hh
+    simp [aggVal_nil] at hv
+  | some it =>
+    have hit : it ∈ grp := List.mem_of_mem_head? hh
+    rw [← hgrp] at hit
+    obtain ⟨hit, _⟩ := List.mem_filter.mp hit
+    obtain ⟨p, hp, rfl⟩ := List.mem_map.mp hit
+    obtain ⟨m, hm⟩ := hdoc p hp
+    simp only [Option.map_some, Option.getD_some, hm, regroup]
+    exact ⟨_, rfl⟩
+
 end Qryn.Read
